@@ -4,6 +4,8 @@ package c06
 import (
 	"bytes"
 	"fmt"
+	"os"
+	"path/filepath"
 	"strings"
 	"testing"
 	"time"
@@ -11,6 +13,7 @@ import (
 	wrapping "github.com/hashicorp/go-kms-wrapping/v2"
 	"github.com/hashicorp/nodeenrollment"
 	"github.com/hashicorp/nodeenrollment/registration"
+	"github.com/hashicorp/nodeenrollment/storage/file"
 	"github.com/hashicorp/nodeenrollment/types"
 	"github.com/mr-tron/base58"
 	"google.golang.org/protobuf/proto"
@@ -23,7 +26,7 @@ const prop = "C06"
 
 func TestMain(m *testing.M) {
 	vkit.Rec(prop).SetLevel("exploration",
-		"rapid state machine over 1-4 tokens, fresh and repeated node keys, storage wrapper on/off and a maximum lifetime drawn per fetch from {negative, 1 ns, 30 s, default, years}: create (optionally with state), use, re-use (same or different node key), use by a key that already has a record, age (the record is re-stored through the real Store with an earlier creation time, sealed with the real wrapper), tamper with the stored record {edit the clear creation-time field, flip bits in the sealed blob, transplant another token's sealed blob, plaintext timestamp under the old wrapping key ID, unseal downgrade, remove}, use again. Reference model: token -> {outstanding|used|removed}, sealed creation time, corrupted flag. Non-trivial = history containing a re-use, an expiry decision on either side of the bound, a use on an existing record, or a tamper followed by a use; distinct = history shape.")
+		"rapid state machine over 1-4 tokens, fresh and repeated node keys, storage wrapper on/off and a maximum lifetime drawn per fetch from {negative, 1 ns, 30 s, default, years}: create (optionally with state), use, re-use (same or different node key), use by a key that already has a record, age (the record is re-stored through the real Store with an earlier creation time, sealed with the real wrapper), tamper with the stored record {edit the clear creation-time field, flip bits in the sealed blob, transplant another token's sealed blob, copy another token's WHOLE record file over it (file back end), plaintext timestamp under the old wrapping key ID, unseal downgrade, remove}, use again. Reference model: token -> {outstanding|used|removed}, sealed creation time, corrupted flag. Non-trivial = history containing a re-use, an expiry decision on either side of the bound, a use on an existing record, or a tamper followed by a use; distinct = history shape.")
 	vkit.Rec(prop).Assume("every expiry decision is kept >= 3 s away from the bound", "'not sufficient to reconstruct the token' is checked syntactically: HMAC key bytes and token string/bytes absent from everything handed to storage and from the storage ID")
 	vkit.Main(m)
 }
@@ -254,6 +257,11 @@ func TestProp_Tokens(t *testing.T) {
 				kinds := []string{"remove-record"}
 				if wrapper {
 					kinds = append(kinds, "edit-clear-creation-time", "flip-sealed-bits", "transplant-sealed-blob", "plaintext-under-old-key-id", "unseal-downgrade")
+					if backend == vkit.File {
+						// only a back end whose records live in files lets a whole record
+						// (id field included) sit under another record's key
+						kinds = append(kinds, "transplant-whole-record", "transplant-whole-record")
+					}
 				}
 				kind := rapid.SampledFrom(kinds).Draw(t, "kind")
 				if _, known := vkit.IsKnown(prop, "C06/tamper-extends/"+kind); known && rapid.IntRange(0, 3).Draw(t, "knownFindingThrottle") > 0 {
@@ -295,6 +303,24 @@ func TestProp_Tokens(t *testing.T) {
 					putRaw(raw)
 					x.corrupt = kind
 					x.extended = kind // if it opens, the other token's (maybe younger) time applies
+				case "transplant-whole-record":
+					o := pickTok(t, func(o *tok) bool {
+						return o != x && o.status == "outstanding" && rawTok(o.id) != nil && o.corrupt == "" && o.extended == ""
+					})
+					fs, ok := w.Inner.(*file.Storage)
+					if o == nil || !ok {
+						t.Skip()
+					}
+					dir := filepath.Join(fs.BaseDir(), "serverledactivationtokens")
+					b, err := os.ReadFile(filepath.Join(dir, o.id))
+					if err != nil {
+						t.Fatalf("read token file: %v", err)
+					}
+					if err := os.WriteFile(filepath.Join(dir, x.id), b, 0o600); err != nil {
+						t.Fatalf("write token file: %v", err)
+					}
+					x.corrupt = kind
+					x.extended = kind
 				case "plaintext-under-old-key-id":
 					raw.CreationTimeMarshaled, _ = proto.Marshal(vkit.TS(future))
 					putRaw(raw)
